@@ -23,7 +23,7 @@ Rec(a) == hist' = Append(hist, a @@ [exp |-> Obs])
 
 GInit == /\ SInit
          /\ layout \in Layouts
-         /\ hist = <<[act |-> "init", layout |-> layout, exp |-> [hw |-> hw, mem |-> mem, str |-> str]]>>
+         /\ hist = <<[act |-> "init", layout |-> layout, hwmax |-> HwMax, exp |-> [hw |-> hw, mem |-> mem, str |-> str]]>>
 GNext == /\ UNCHANGED layout
          /\ \/ \E v \in SWV : WriteStruct(Pat(v)) /\ Rec([act |-> "ws", v |-> Pat(v)])
             \/ \E v \in SAV : AssignStruct(Pat(v)) /\ Rec([act |-> "as", v |-> Pat(v)])
